@@ -6,6 +6,7 @@ from inside worker tasks; there is no seed argument.  The entropy seam sees
 every request and decides every answer (DESIGN §4 C17).
 """
 import numpy
+from sklearn.base import BaseEstimator, RegressorMixin
 from sklearn.dummy import DummyRegressor
 from sklearn.linear_model import ElasticNet, LinearRegression
 from sklearn.tree import DecisionTreeRegressor
@@ -23,6 +24,22 @@ PLinReg = P.make_peer(LinearRegression)
 PDummy = P.make_peer(DummyRegressor)
 PTree = P.make_peer(DecisionTreeRegressor)
 PElasticNet = P.make_peer(ElasticNet)
+
+
+class KeepsItsTrainingArrays(RegressorMixin, BaseEstimator):
+    """A base regressor that keeps the arrays it is given (as KernelRidge or a
+    nearest-neighbour model do) and predicts from them at prediction time."""
+
+    def fit(self, X, y, sample_weight=None):
+        P._site(self, "fit")
+        P._record_fit(self, None, (X, y, sample_weight), {})  # copies, for the oracle
+        self.X_, self.y_, self.w_ = X, y, sample_weight  # references
+        return self
+
+    def predict(self, X):
+        w = numpy.ones(len(self.y_)) if self.w_ is None else numpy.asarray(self.w_, dtype=float)
+        w = w if w.sum() > 0 else numpy.ones(len(self.y_))
+        return numpy.full(numpy.asarray(X).shape[0], float(numpy.average(numpy.asarray(self.y_, dtype=float), weights=w)) + float(numpy.asarray(self.X_, dtype=float).sum()) * 1e-3)
 
 
 class PickyLinReg(PLinReg):
@@ -76,7 +93,11 @@ def _requests(ent):
 def run(c, index, tier):
     ch = c.ch
     seen = set()
-    n = ch.weighted("w", [(k, 3 if k <= 4 else 1) for k in range(1, 13)], "n")
+    n = ch.weighted("w", [(k, 3 if k <= 4 else 1) for k in range(1, 13)] + [(0, 1)], "n")
+    if n == 0:
+        # a few hundred rows: row numbers beyond what one byte holds
+        n = 257 + ch.draw("w", 150, "n-large")
+        c.probe("training_set_of_more_than_256_rows")
     d = ch.integer("w", 1, 3, "d")
     data_seed = ch.subseed("w", "data")
     rs = numpy.random.RandomState(data_seed)
@@ -95,13 +116,14 @@ def run(c, index, tier):
             c.probe("some_weights_are_zero")
     alpha = _alpha(ch, n)
     n_est = ch.integer("w", 1, 8, "n_estimators")
-    local_name = ch.choice("w", ["linreg", "tag", "dummy", "tree", "picky", "warm"], "local")
+    local_name = ch.choice("w", ["linreg", "tag", "dummy", "tree", "picky", "warm", "keeps-arrays"], "local")
     local = {
         "linreg": PLinReg,
         "tag": P.TagRegressor,
         "dummy": PDummy,
         "tree": lambda: PTree(max_depth=2, random_state=0),
         "picky": PickyLinReg,
+        "keeps-arrays": KeepsItsTrainingArrays,
         # a base regressor that continues from its previous solution when it is
         # fitted again: only a fresh clone is trained on its resample alone
         "warm": lambda: PElasticNet(alpha=0.01, warm_start=True, max_iter=50, tol=1e-3),
@@ -243,6 +265,9 @@ def run(c, index, tier):
             _viol(c, seen, "record", ("foreign-row",), "estimators_[%d] was trained on a row that is not a training row" % i)
             return
         used.update(R)
+        if isinstance(est, KeepsItsTrainingArrays) and not (numpy.array_equal(numpy.asarray(est.X_), est.rec_X_) and numpy.array_equal(numpy.asarray(est.y_), est.rec_y_) and (est.w_ is None or numpy.array_equal(numpy.asarray(est.w_), est.rec_w_))):
+            _viol(c, seen, "record", ("training-arrays-overwritten",), "estimators_[%d] keeps the arrays it was trained on, and they no longer hold its resample: they were rewritten after its fit (another model's resample)" % i)
+            return
         if not numpy.array_equal(est.rec_y_, y[R]):
             _viol(c, seen, "record", ("target-misaligned",), "estimators_[%d]: targets are not those of the drawn rows (rows %r)" % (i, R))
             return
